@@ -110,7 +110,8 @@ func (p Prog) demoStructs() []string {
 type e2eResult struct {
 	stream  History
 	shapeOK bool
-	fail    *failure
+	shape   *failure // the stream is not file-then-nameless-patches
+	fail    *failure // first failure seen on the written files
 	files   int
 	renamed int
 }
@@ -188,8 +189,7 @@ func checkProg(p Prog) (res e2eResult, err error) {
 	})
 	res.files = len(written)
 	if !res.shapeOK {
-		res.fail = mk("e2e-stream-shape", "the Go backend's item stream is not `named file, then its nameless patches`: a named patch is routed by Feed to the file first registered under that name", "file (Name, no InsertionPoint) followed by patches (InsertionPoint, no Name)", streamShape(items))
-		return res, nil
+		res.shape = mk("e2e-stream-shape", "the Go backend's item stream is not `named file, then its nameless patches`: a named patch is routed by Feed to the file first registered under that name", "file (Name, no InsertionPoint) followed by patches (InsertionPoint, no Name)", streamShape(items))
 	}
 	if len(written) != len(r.Contents) {
 		res.fail = mk("e2e-lost", "the response holds more files than were written (same path twice)", len(r.Contents), len(written))
@@ -392,9 +392,16 @@ func shrinkProg(p Prog, f *failure) *failure {
 			}
 			cand.IDL["main.thrift"] = strings.Replace(cand.IDL["main.thrift"], fmt.Sprintf("include %q\n", k), "", 1)
 			r, err := checkProg(cand)
-			if err == nil && r.fail != nil && r.fail.class == curF.class {
-				cur, curF, changed = cand, r.fail, true
-				break
+			if err == nil {
+				for _, cf := range []*failure{r.fail, r.shape} {
+					if cf != nil && cf.class == curF.class {
+						cur, curF, changed = cand, cf, true
+						break
+					}
+				}
+				if changed {
+					break
+				}
 			}
 		}
 	}
@@ -418,13 +425,17 @@ func (g *gen) e2eCase(p Prog, class string) {
 	}
 	// the backend's stream through the ordinary correspondence (FileManager vs model, Feed-level oracle)
 	g.emit(r.stream, "backend-stream")
-	if r.fail != nil {
-		g.out.Count("oracle-fail:" + r.fail.class)
+	for _, f := range []*failure{r.fail, r.shape} {
+		if f == nil {
+			continue
+		}
+		g.out.Count("oracle-fail:" + f.class)
 		if g.shrunk < 60 {
 			g.shrunk++
-			g.out.Fail(shrinkProg(p, r.fail).OracleFail)
+			g.out.Fail(shrinkProg(p, f).OracleFail)
 		}
-	} else {
+	}
+	if r.fail == nil && r.shape == nil {
 		g.out.Count("e2e:oracle-pass")
 	}
 }
